@@ -6,4 +6,5 @@ command -v verus >/dev/null || { echo "verus not on PATH"; exit 1; }
 command -v python3 >/dev/null || { echo "python3 missing"; exit 1; }
 mkdir -p .build evidence replays
 ( cd replay && CARGO_NET_OFFLINE=true RUSTFLAGS="--cfg indicatif_verif" cargo build --offline --release --target-dir /verif/.build/replay-target >/verif/.build/replay-build.log 2>&1 ) || echo "warning: replay driver did not build (witness search disabled): see .build/replay-build.log"
+( cd replay-async && CARGO_NET_OFFLINE=true cargo build --offline --release --target-dir /verif/.build/replay-async-target >/verif/.build/replay-async-build.log 2>&1 ) || echo "warning: replay-async driver did not build: see .build/replay-async-build.log"
 echo setup ok
